@@ -2828,7 +2828,8 @@ where
                             }
                             Property::SessionExpiryInterval(val) => {
                                 if val.val() == 0 {
-                                    self.need_store = false;
+                                    // Offline publishing needs the store for as long as it is enabled
+                                    self.need_store = self.offline_publish;
                                     self.clear_store_related();
                                 } else {
                                     self.need_store = true;
